@@ -116,6 +116,10 @@ func manifestHandler(raw json.RawMessage) (any, error) {
 	var paths []string
 	for _, d := range arg.Dirs {
 		paths = append(paths, filepath.Join(root, d), filepath.Join(root, d, "m"), filepath.Join(root, d, "m", "n"), root+"/"+d+"/./m", root+"/"+d+"/x/../m", root+"/"+d+"/m/n/../..", root+"/"+d+"/file.tf")
+		// names a file system allows and an address grammar might not
+		for _, odd := range []string{"what?.md", "why?/main.tf", "a b/ü", "a#b", "a%2Fb", "a%zz", "*", "a@b", "a:b", "..data", "a..", "m/...", "a\\b", "?", "#"} {
+			paths = append(paths, root+"/"+d+"/"+odd)
+		}
 	}
 	cwd, _ := os.Getwd()
 	for _, d := range arg.Dirs {
